@@ -75,6 +75,7 @@ func checkC10(c *Ctx, r *Report) {
 	r.rule("C10.R1.ecdsa-sig-length", 1, "RRSIG.Verify compares the ECDSA signature length with twice the curve size before splitting it into r and s")
 	ecdsaSigLength(c, r, "C10.R1.ecdsa-sig-length", "RRSIG.Verify", "a signature padded with leading zero octets in r and s (66 instead of 64 octets) verifies although it is not the RFC 6605 encoding: Verify succeeds for octets that are not a signature of the canonical form")
 	c10RRsetInputs(c, r, "C10.R1.rrset-inputs")
+	borrow(c, r, c17KeyTag, "C17.R8.keytag-formula", "C10.R1.keytag-formula", 1, "the key tag Sign writes and Verify compares is the RFC 4034 Appendix B sum, folded once", nil, "for keys whose sum carries twice the tag differs from every other implementation's: their signatures name a key nobody else finds, and signatures others made with the right tag are refused with ErrKey")
 }
 
 // c17R6as runs the RSA size-limit rule under another rule id (shared by C10, C17, C18).
@@ -284,6 +285,16 @@ func c10R1(c *Ctx, r *Report) {
 				return ok && strings.HasPrefix(calleeNameSSA(&call.Call), "(DNSKEY).publicKey") && call.Call.Args[0] == k
 			}) {
 				problems = append(problems, "the verifier is not given the public key of k")
+			}
+			// ... on every path: the key argument is never anything but the key decoded from k by this call
+			for _, l := range phiLeaves(args[0]) {
+				if ex, isEx := l.(*ssa.Extract); isEx {
+					l = ex.Tuple
+				}
+				call, ok := l.(*ssa.Call)
+				if !ok || !strings.HasPrefix(calleeNameSSA(&call.Call), "(DNSKEY).publicKey") || call.Call.Args[0] != k {
+					problems = append(problems, fmt.Sprintf("on some path the verifier's key is %s, not the key decoded from k by this call", describeValue(l)))
+				}
 			}
 			if !anyIn(all, func(v ssa.Value) bool {
 				call, ok := v.(*ssa.Call)
